@@ -40,8 +40,18 @@ fn mutate(r: &mut Rng, prev: &RoleSet, history: &[RoleSet]) -> (RoleSet, &'stati
     (n, kind)
 }
 
-fn root_of(rs: &RoleSet, version: u64, cs: bool, msg: u64) -> ARoot {
-    simple_root(version, cs, (vec![RK], 1), rs.ts.clone(), rs.snap.clone(), rs.tgt.clone(), msg, &[RK])
+/// root keys of the epochs when the root role rotates too: every root is signed by its predecessor's key and its own
+const ROOT_CYCLE: [usize; 3] = [RK, 6, 12];
+
+fn root_of(rs: &RoleSet, version: u64, cs: bool, msg: u64, rotroot: bool) -> ARoot {
+    if !rotroot {
+        return simple_root(version, cs, (vec![RK], 1), rs.ts.clone(), rs.snap.clone(), rs.tgt.clone(), msg, &[RK]);
+    }
+    let i = (version - 1) as usize;
+    let own = ROOT_CYCLE[i % 3];
+    let mut signers = vec![own];
+    if i > 0 { signers.insert(0, ROOT_CYCLE[(i - 1) % 3]); }
+    simple_root(version, cs, (vec![own], 1), rs.ts.clone(), rs.snap.clone(), rs.tgt.clone(), msg, &signers)
 }
 
 fn signers(r: &mut Rng, rk: &(Vec<usize>, u64)) -> Vec<usize> {
@@ -59,10 +69,10 @@ struct Step {
     fail: Option<&'static str>,
 }
 
-async fn history(ctx: &mut Ctx<'_>, r: &mut Rng, epochs: &[RoleSet], kinds: &[&str], steps: &[Step], cs: bool, class: &str) {
+async fn history(ctx: &mut Ctx<'_>, r: &mut Rng, epochs: &[RoleSet], kinds: &[&str], steps: &[Step], cs: bool, class: &str, rotroot: bool) {
     let mut world = World::new(ctx.pool, Names::default());
     let mut msgs = MsgGen(0);
-    let roots: Vec<ARoot> = epochs.iter().enumerate().map(|(i, e)| root_of(e, i as u64 + 1, cs, msgs.next())).collect();
+    let roots: Vec<ARoot> = epochs.iter().enumerate().map(|(i, e)| root_of(e, i as u64 + 1, cs, msgs.next(), rotroot)).collect();
     let mut cycles = Vec::new();
     let mut distinct_versions = false;
     for (i, s) in steps.iter().enumerate() {
@@ -122,12 +132,26 @@ pub async fn generate(ctx: &mut Ctx<'_>, seed: u64, thorough: bool) {
         let e0 = base_set();
         let e1 = RoleSet { ts: (vec![0], 1), ..e0.clone() };
         let steps = [Step { epoch: 1, shipped: 0, versions: [5, 5, 1, 1], fail: None }, Step { epoch: 1, shipped: 0, versions: [3, 3, 1, 1], fail: None }];
-        history(ctx, &mut r, &[e0.clone(), e1], &["ts-disjoint"], &steps, false, "corpus-old-shipped-root").await;
+        history(ctx, &mut r, &[e0.clone(), e1], &["ts-disjoint"], &steps, false, "corpus-old-shipped-root", false).await;
         // (ii) newest root shipped, old key kept, stored versions inflated
         let mut r = next(&mut stream);
         let e1 = RoleSet { ts: (vec![8, 0], 1), ..e0.clone() };
         let steps = [Step { epoch: 0, shipped: 0, versions: [big, big, 1, 1], fail: None }, Step { epoch: 1, shipped: 1, versions: [2, 2, 1, 1], fail: None }];
-        history(ctx, &mut r, &[e0, e1], &["ts-overlap"], &steps, true, "corpus-overlap-lockout").await;
+        history(ctx, &mut r, &[e0, e1], &["ts-overlap"], &steps, true, "corpus-overlap-lockout", false).await;
+    }
+    // (iii) the root role rotates its key with every root (each root signed by its predecessor's key and its own): the
+    // root recorded by cycle 1 (v3) is not signed by the shipped root's key; the timestamp keys go {K} -> {K, K2} -> {K};
+    // stored versions inflated under v3, repository restarted low under v4
+    for cs in [false, true] {
+        let mut r = next(&mut stream);
+        let e0 = base_set();
+        let mut e2 = e0.clone();
+        e2.ts = (vec![e0.ts.0[0], TS_POOL[1]], 1);
+        let steps = vec![
+            Step { epoch: 2, shipped: 0, versions: [big, big, 2, 2], fail: None },
+            Step { epoch: 3, shipped: 0, versions: [1, 1, 2, 2], fail: None },
+        ];
+        history(ctx, &mut r, &[e0.clone(), e0.clone(), e2, e0], &["none", "ts-overlap", "rotate-back"], &steps, cs, "corpus-rootkeys-rotate-back", true).await;
     }
     // all two-cycle histories over a version grid, without root changes
     let grid: Vec<u64> = if thorough { vec![1, 2, 3] } else { vec![1, 2] };
@@ -145,7 +169,7 @@ pub async fn generate(ctx: &mut Ctx<'_>, seed: u64, thorough: bool) {
             let mut r = next(&mut stream);
             let cs = r.chance(1, 2);
             let steps = [Step { epoch: 0, shipped: 0, versions: *q1, fail: None }, Step { epoch: 0, shipped: 0, versions: *q2, fail: None }];
-            history(ctx, &mut r, &[base_set()], &[], &steps, cs, "grid2").await;
+            history(ctx, &mut r, &[base_set()], &[], &steps, cs, "grid2", false).await;
         }
     }
     // random histories with root changes
@@ -176,6 +200,7 @@ pub async fn generate(ctx: &mut Ctx<'_>, seed: u64, thorough: bool) {
             let fail = if i > 0 && r.chance(1, 8) { Some(*r.pick(&["ts-missing", "ts-garbage", "snapshot-openerr", "expired", "unsafe"])) } else { None };
             steps.push(Step { epoch, shipped, versions: v, fail });
         }
-        history(ctx, &mut r, &epochs, &kinds, &steps, cs, "random").await;
+        let rotroot = r.chance(1, 3);
+        history(ctx, &mut r, &epochs, &kinds, &steps, cs, if rotroot { "random-rootkeys" } else { "random" }, rotroot).await;
     }
 }
